@@ -82,3 +82,116 @@ Example C07_lowlevel_example :
 Proof. vm_compute. reflexivity. Qed.
 
 Print Assumptions C07_lowlevel_chunking.
+
+
+(* ================================================================================================================
+   ONLINE TRAINING OF A MODEL IN CHUNKS (Model.train called on consecutive pieces), inside the formal model:
+   model/TrainModel.v - feedback loops, one or more RLS / LMS readouts, array or teacher-node targets - tied to /repo by
+   run/RunTrain.v (tools/props/trainmodel.py).  [train_call tm k force reset steps (e, P)] is
+   Model.train(X, Y, force_teachers=force, learn_every=k, reset=reset) from node states e and readout parameters P; it returns
+   the states and parameters reached, the states of all nodes after each step, and the success flag. *)
+From RV Require Import model.Online model.TrainModel proofs.TrainModel_proofs.
+
+Section C07_modeltrain.
+Context {F : Type} `{Num F}.
+Notation vec := (list F).
+Notation env := (@env F).
+Notation tmodel := (@tmodel F).
+Notation tstep := (@tstep F).
+Notation tstate := (@tstate F).
+Notation params := (@params F).
+
+(* force_teachers = False (the case the property is about): training on xs ++ ys = training on xs, then on ys from the states
+   AND parameters reached - same final states, same learned Wout / bias / P / learning-rate cursor, outputs concatenated -
+   for any cut when learn_every = 1, for cuts at multiples of learn_every otherwise; for every model, feedback loops through
+   the readouts included, every forward function, RLS and LMS, array or teacher-node targets. *)
+Theorem C07_modeltrain_app (tm : tmodel) k reset xs ys (eP : env * params) :
+  0 < k -> length xs mod k = 0 ->
+  TrainModel.train_call tm k false reset (xs ++ ys) eP =
+    let '(e1, P1, o1, ok1) := TrainModel.train_call tm k false reset xs eP in
+    if ok1 then let '(e2, P2, o2, ok2) := TrainModel.train_call tm k false false ys (e1, P1) in (e2, P2, o1 ++ o2, ok2)
+    else (e1, P1, o1, false).
+Proof. exact (train_call_app_unforced tm k reset xs ys eP). Qed.
+
+(* any number of consecutive pieces, all but the last of a length that is a multiple of learn_every *)
+Theorem C07_modeltrain_chunking (tm : tmodel) k chunks (eP : env * params) :
+  0 < k -> Forall (fun c => length c mod k = 0) (removelast chunks) ->
+  train_chunks tm k chunks eP = TrainModel.train_call tm k false false (concat chunks) eP.
+Proof. intros Hk Hall. exact (train_chunks_concat tm k Hk chunks eP Hall). Qed.
+
+(* force_teachers = True is excluded by the property, and rightly so.  What does hold: the whole call is the first chunk
+   followed by the second chunk CONTINUED (step counter, previous targets and frozen proxies carried over) ... *)
+Theorem C07_modeltrain_forced_continuation (tm : tmodel) k xs ys (S : tstate) :
+  TrainModel.train_from tm k false true 0 None (xs ++ ys) S =
+    let '(S1, o1, ok1) := TrainModel.train_from tm k false true 0 None xs S in
+    if ok1 then let '(S2, o2, ok2) := TrainModel.train_from tm k false true (length xs) (last_opt None xs) ys S1 in (S2, o1 ++ o2, ok2)
+    else (S1, o1, false).
+Proof. exact (train_forced_continuation tm k xs ys S). Qed.
+(* ... and a FRESH call on the second chunk gives the same result under exactly one more condition, [cut_agrees]: at the cut
+   every node is handed the same feedback value by the fresh call (which forces zeros: dispatch for array targets, the zero proxy
+   for teacher-node targets) as by the uninterrupted one (which forces the last targets of the first chunk). *)
+Theorem C07_modeltrain_forced_app_when_cut_agrees (tm : tmodel) k reset xs lastx y0 ys (eP : env * params) :
+  0 < k -> length (xs ++ [lastx]) mod k = 0 ->
+  (forall S1 o1, TrainModel.train_from tm k false true 0 None (xs ++ [lastx])
+                   (start_env (base tm) reset (fun _ => None) (fst eP), snd eP, init_pov tm true) = (S1, o1, true) ->
+                 cut_agrees tm S1 lastx y0) ->
+  TrainModel.train_call tm k true reset ((xs ++ [lastx]) ++ y0 :: ys) eP =
+    let '(e1, P1, o1, ok1) := TrainModel.train_call tm k true reset (xs ++ [lastx]) eP in
+    if ok1 then let '(e2, P2, o2, ok2) := TrainModel.train_call tm k true false (y0 :: ys) (e1, P1) in (e2, P2, o1 ++ o2, ok2)
+    else (e1, P1, o1, false).
+Proof. exact (train_call_app_forced tm k reset xs lastx y0 ys eP). Qed.
+(* the condition holds for every model without feedback connections *)
+Theorem C07_modeltrain_forced_no_feedback (tm : tmodel) (S1 : tstate) lastx y0 :
+  (forall d, In d (order (base tm)) -> nfb d = None) -> cut_agrees tm S1 lastx y0.
+Proof. exact (cut_agrees_no_feedback tm S1 lastx y0). Qed.
+End C07_modeltrain.
+
+(* ---- non-vacuity at Q: R(x + fb/2) >> readout (RLS, bias, alpha = 1), R <<= readout; X = 1 2 1 3, Y = 1 3 2 1 *)
+Definition exC_base : @model Q :=
+  mkModel [mkND 0 (kfwd (KFbAdd (1#2))) (Some (FbNode 1)) 1; mkND 1 (kfwd KId) None 1]%Q (fun n => match n with 1 => [0] | _ => [] end) [1].
+Definition exC : @tmodel Q := mkTM exC_base [mkRS 1 (RuleRLS true) 1 TArr].
+Definition exC_P0 : @params Q := fun _ => rls_init true 1 1 1%Q.
+Definition exC_e0 : @env Q := fun _ => mkNS [0%Q] [].
+Definition exC_steps (xy : list (Q * Q)) : list (@tstep Q) :=
+  map (fun p => mkTS (fun n => match n with 0 => Some [fst p] | _ => None end) (fun n => match n with 1 => Some [snd p] | _ => None end)) xy.
+Definition exC_xy := [(1, 1); (2, 3); (1, 2); (3, 1)]%Q.
+Definition exC_view (r : @env Q * @params Q * list (list (list Q)) * bool) :=
+  let '(e, P, o, ok) := r in (map (fun n => st (e n)) [0; 1], Wout (P 1), bias (P 1), Pm (P 1), o, ok).
+Definition exC_chunked k force cut :=
+  let '(e1, P1, o1, _) := TrainModel.train_call exC k force false (exC_steps (firstn cut exC_xy)) (exC_e0, exC_P0) in
+  let '(e2, P2, o2, ok) := TrainModel.train_call exC k force false (exC_steps (skipn cut exC_xy)) (e1, P1) in (e2, P2, o1 ++ o2, ok).
+(* unforced, learn_every = 2, cut 2 + 2: same states, Wout, bias, P and outputs; the loop through the readout is live *)
+Example C07_modeltrain_example :
+  exC_view (exC_chunked 2 false 2) = exC_view (TrainModel.train_call exC 2 false false (exC_steps exC_xy) (exC_e0, exC_P0)) /\
+  (let '(_, P, _, ok) := TrainModel.train_call exC 2 false false (exC_steps exC_xy) (exC_e0, exC_P0) in (Wout (P 1), ok)) <> ([[0%Q]], true) /\
+  exC_view (exC_chunked 1 false 3) = exC_view (TrainModel.train_call exC 1 false false (exC_steps exC_xy) (exC_e0, exC_P0)).
+Proof. vm_compute. repeat split; try reflexivity; discriminate. Qed.
+(* the alignment hypothesis is needed: learn_every = 2 cut after ONE step learns on different steps *)
+Theorem C07_modeltrain_misaligned_refuted :
+  exC_view (exC_chunked 2 false 1) <> exC_view (TrainModel.train_call exC 2 false false (exC_steps exC_xy) (exC_e0, exC_P0)).
+Proof. vm_compute. discriminate. Qed.
+(* force_teachers = True: chunking fails (aligned cut 2 + 2; the last target of the first chunk is 3, the fresh call forces 0) *)
+Theorem C07_modeltrain_forced_refuted :
+  exists (tm : @tmodel Q) k xs ys eP, 0 < k /\ length xs mod k = 0 /\
+    (let '(e1, P1, o1, _) := TrainModel.train_call tm k true false xs eP in
+     let '(_, _, o2, _) := TrainModel.train_call tm k true false ys (e1, P1) in o1 ++ o2) <>
+    (let '(_, _, o, _) := TrainModel.train_call tm k true false (xs ++ ys) eP in o).
+Proof.
+  exists exC, 2, (exC_steps (firstn 2 exC_xy)), (exC_steps (skipn 2 exC_xy)), (exC_e0, exC_P0).
+  split; [lia|]. split; [reflexivity|]. vm_compute. discriminate.
+Qed.
+(* ... and holds in the instance where cut_agrees does: last target of the first chunk equal to zero *)
+Example C07_modeltrain_forced_zero_last_target_example :
+  let xy := [(1, 1); (2, 0); (1, 2); (3, 1)]%Q in
+  (let '(e1, P1, o1, _) := TrainModel.train_call exC 2 true false (exC_steps (firstn 2 xy)) (exC_e0, exC_P0) in
+   let '(e2, P2, o2, ok) := TrainModel.train_call exC 2 true false (exC_steps (skipn 2 xy)) (e1, P1) in exC_view (e2, P2, o1 ++ o2, ok)) =
+  exC_view (TrainModel.train_call exC 2 true false (exC_steps xy) (exC_e0, exC_P0)).
+Proof. vm_compute. reflexivity. Qed.
+
+Print Assumptions C07_modeltrain_app.
+Print Assumptions C07_modeltrain_chunking.
+Print Assumptions C07_modeltrain_forced_continuation.
+Print Assumptions C07_modeltrain_forced_app_when_cut_agrees.
+Print Assumptions C07_modeltrain_forced_no_feedback.
+Print Assumptions C07_modeltrain_misaligned_refuted.
+Print Assumptions C07_modeltrain_forced_refuted.
